@@ -7,6 +7,7 @@ import (
 	"net/http"
 	"reflect"
 	"sort"
+	"strings"
 	"testing"
 
 	"github.com/bufbuild/connect-go/verif/memnet"
@@ -28,6 +29,15 @@ type BodySpec struct {
 	ErrMsg   string        `json:"err_msg,omitempty"`
 	Trailer  []prog.KV     `json:"trailer,omitempty"`
 	Knobs    refwire.Knobs `json:"knobs"`
+	// Page: instead of a protocol response, an HTTP-level error answer such as
+	// a proxy or net/http produces (non-200 status, text or JSON body)
+	Page *PageSpec `json:"page,omitempty"`
+}
+
+type PageSpec struct {
+	Status      int    `json:"status"`
+	ContentType string `json:"content_type"`
+	Text        string `json:"text"`
 }
 
 // Case is a body plus a segmentation.
@@ -47,6 +57,13 @@ func encMsgs(b BodySpec) [][]byte {
 }
 
 func buildResponse(b BodySpec) (*refwire.Response, error) {
+	if b.Page != nil {
+		h := http.Header{}
+		if b.Page.ContentType != "" {
+			h.Set("Content-Type", b.Page.ContentType)
+		}
+		return &refwire.Response{Status: b.Page.Status, Header: h, Body: []byte(b.Page.Text), Trailer: http.Header{}}, nil
+	}
 	return refwire.BuildResponse(&refwire.RespSpec{
 		Protocol: b.Protocol, Kind: b.Kind, ContentType: refwire.ContentType(b.Protocol, b.Kind, b.Codec),
 		Msgs: encMsgs(b), Encoding: b.Encoding, CompressMsg: b.Compress,
@@ -180,11 +197,16 @@ func checkCase(tt *testing.T, c Case) (pbt.Info, error) {
 			return info, nil // not a buildable body: skip (counted as trivial)
 		}
 		data = resp.Body
-		unaryConnect = unaryConnect && resp.Status == 200
+		unaryConnect = (unaryConnect && resp.Status == 200) || c.Body.Page != nil
 		one = clientOutcome(c.Body, resp, nil, false)
 		seg = clientOutcome(c.Body, resp, c.Cuts, c.EOFWithLast)
 		// the one-piece outcome must be what the reference encoder put in
-		if c.Body.ErrCode == 0 {
+		if c.Body.Page != nil {
+			info.Label("http-error-page")
+			if one.Clean || one.Err == "" {
+				return info, fmt.Errorf("HTTP %d %q answer to a %s %s call was reported as success", c.Body.Page.Status, c.Body.Page.ContentType, c.Body.Protocol, c.Body.Kind)
+			}
+		} else if c.Body.ErrCode == 0 {
 			if len(one.Msgs) != len(c.Body.Msgs) || !one.Clean || one.Err != "" {
 				return info, fmt.Errorf("one-piece delivery of a valid %s %s response did not decode to its %d messages: got %v clean=%v err=[%s]", c.Body.Protocol, c.Body.Kind, len(c.Body.Msgs), one.Msgs, one.Clean, one.Err)
 			}
@@ -317,9 +339,22 @@ func cutsGen(t *rapid.T, n int, bounds []int) ([]int, bool) {
 	return out, eof
 }
 
+var pageTexts = []string{
+	"no healthy upstream", "upstream connect error or disconnect/reset before headers. reset reason: connection failure\n",
+	"404 page not found\n", "<html><body><h1>502 Bad Gateway</h1></body></html>\r\n", "line one\nline two\nline three\n", "x",
+	`{"code":"unavailable","message":"try later"}`, `{"error":"not connect"}`, strings.Repeat("long text ", 120),
+}
+
 func gen(t *rapid.T) Case {
 	c := Case{Dir: rapid.SampledFrom([]string{"response", "request"}).Draw(t, "dir")}
 	c.Body = bodyGen(t, c.Dir)
+	if c.Dir == "response" && rapid.IntRange(0, 7).Draw(t, "page") == 0 {
+		c.Body.Page = &PageSpec{
+			Status:      rapid.SampledFrom([]int{400, 401, 403, 404, 429, 500, 502, 503, 504}).Draw(t, "pageStatus"),
+			ContentType: rapid.SampledFrom([]string{"text/plain", "text/plain; charset=utf-8", "text/html", "application/json", ""}).Draw(t, "pageCT"),
+			Text:        rapid.SampledFrom(pageTexts).Draw(t, "pageText"),
+		}
+	}
 	var data []byte
 	if c.Dir == "response" {
 		resp, err := buildResponse(c.Body)
